@@ -179,6 +179,32 @@ def s_collect_string(ex, st, func, args, ty):
     return out
 
 
+def s_vec_index_range(ex, st, func, args, ty):
+    """<Vec<T> as Index<Range*<usize>>>::index / <[T]>::index: panics unless start <= end <= len"""
+    s = obj(st, args[0]); m = list(model(st, s)); n = len(m)
+    r = obj(st, args[1])
+    kind = 'to' if 'RangeTo<' in func else 'from' if 'RangeFrom<' in func else 'range'
+    f0 = st.heap[r.oid].get(('f', None, 0)); f1 = st.heap[r.oid].get(('f', None, 1))
+    if kind == 'to': lo_t, hi_t = z3.BitVecVal(0, 64), f0.t
+    elif kind == 'from': lo_t, hi_t = f0.t, z3.BitVecVal(n, 64)
+    else: lo_t, hi_t = f0.t, f1.t
+    out = []; okc = []
+    for lo in range(n + 1):
+        for hi in range(lo, n + 1):
+            c = z3.And(lo_t == lo, hi_t == hi)
+            if z3.is_false(z3.simplify(c)): continue
+            okc.append(c)
+            if ex.feasible(st, c):
+                s2 = st.clone(); s2.pc.append(c); out.append((s2, slot(s2, seqobj(s2, 'slice', m[lo:hi]))))
+    bad = z3.Not(z3.Or(*okc)) if okc else z3.BoolVal(True)
+    if ex.feasible(st, bad):
+        s2 = st.clone(); s2.pc.append(bad); s2.status = 'panic'; s2.notes.append('slice index out of range'); PANICS.append(s2)
+    return out
+
+
+def s_to_vec(ex, st, func, args, ty): return [(st, seqobj(st, 'Vec', model(st, args[0])))]
+
+
 def s_range_next(ex, st, func, args, ty):
     r = obj(st, args[0]); a = st.heap[r.oid][('f', None, 0)]; b = st.heap[r.oid][('f', None, 1)]
     av = cval(a.t)
@@ -222,6 +248,7 @@ def make_summaries(argtable):
             (r'impl \[.*\]>::first$', s_first), (r'impl \[.*\]>::last$', s_last), (r'Option::<.*>::cloned$|as Iterator>::cloned$', s_cloned),
             (r'<Vec<.*> as Clone>::clone$|<IndexMap<.*> as Clone>::clone$', lambda ex, st, f, a, t: [(st, seqobj(st, st.meta[obj(st, a[0]).oid][1], model(st, a[0])))]),
             (r'<JsonValue as Clone>::clone$|<std::string::String as Clone>::clone$', s_clone_shared), (r'as Deref>::deref$', s_identity),
+            (r'<Vec<.*> as Index<.*Range.*>>::index$|<\[.*\] as Index<.*Range.*>>::index$', s_vec_index_range), (r'impl \[.*\]>::to_vec$|slice::<impl \[.*\]>::to_vec', s_to_vec),
             (r'String::new$', s_string_new), (r'ToString>::to_string$', s_to_string), (r'<std::string::String as Index<.*>>::index$|<str as Index<.*>>::index$', s_str_index),
             (r'<usize as Into<JsonValue>>::into$|<JsonValue as From<usize>>::from$', s_usize_into),
             (r' as Into<JsonValue>>::into$|<JsonValue as From<.*>>::from$|<&str as Into<std::string::String>>::into$|<std::string::String as From<&str>>::from$', s_into_generic)]
@@ -418,7 +445,6 @@ def kernels(ctx, names=None, strings=True):
 def replay_kernels(ctx, cands):
     from .cli import run_jawk, show as shw
     for c in cands:
-        if c.unmodelled: c.status = 'inconclusive'; continue
         mv = c.model; name = mv['fn']; shape = mv['shape']; k = mv['k']
         if shape == 'array': a0 = json.dumps(list(range(10, 10 + k))); elems = list(range(10, 10 + k))
         elif shape == 'object': a0 = json.dumps({f'k{i}': i for i in range(k)}); elems = [(f'k{i}', i) for i in range(k)]
